@@ -181,3 +181,23 @@ SIMS = st.one_of(st.integers(1, 20), st.sampled_from([1, 7, 8, 9, 15, 16, 17, 31
 def codes(n, lanes, alphabet):
     """n rows of `lanes` codes drawn from alphabet (list of ints)."""
     return st.lists(st.lists(st.sampled_from(alphabet), min_size=lanes, max_size=lanes), min_size=n, max_size=n)
+
+
+def widen(nl, n, r):
+    """Appends n gates that read only primary inputs / state outputs (one wide level) and observes each at an own output.
+    Used to get levels wider than one mock-GPU block (16 ops) and more than 16 ports."""
+    srcs = [f'i{k}' for k in range(nl['pi'])] + [f's{k}' for k in range(len(nl['st']))]
+    fams = ['BUF', 'INV', 'AND', 'NAND', 'OR', 'NOR', 'XOR', 'XNOR']
+    for j in range(n):
+        fam = fams[(r + j) % len(fams)]
+        pins = [srcs[(r // 3 + j) % len(srcs)]] if fam in ('BUF', 'INV') else [srcs[(r // 3 + j) % len(srcs)], srcs[(r // 7 + 2 * j + 1) % len(srcs)]]
+        nl['g'].append(dict(f=fam, k=fam.lower(), i=pins))
+        src = f'g{len(nl["g"]) - 1}'
+        nl['po'].append(src)
+        nl['ports'].append(f'o{len(nl["po"]) - 1}')
+        nl['w'][src] = 'F'
+    for s_ in srcs:
+        nl['w'].setdefault(s_, 'F')
+        if nl['w'][s_] == 'D':
+            nl['w'][s_] = 'F'
+    return nl
